@@ -191,7 +191,7 @@ def cases(draw, tier):
         from .c15 import plan
 
         inline_state = any(c["scope"][0] == "state" and c["attach"] != "conv" for c in spec["cbs"]) or any("name" in s_ for s_ in spec["states"])
-        spec["style"] = draw(plan(spec, [], inline_state))
+        spec["style"] = draw(plan(spec, draw(gen.add_bundle(spec)), inline_state))
     from ..core import cbid_of
 
     gids = [cbid_of(g) for g in spec.get("guards", [])]
